@@ -29,7 +29,7 @@ var ruleGroups = map[string]func(*Ctx){
 	"G1": rulesLife, "G3": rulesLife, "G4": rulesLife, "G5": rulesLife, "G6": rulesLife,
 	"X1": rulesTransport, "X2": rulesTransport, "X3": rulesTransport, "W1": rulesTransport,
 	"G9": rulesExtra3, "P5": rulesExtra3, "M4": rulesExtra3, "M5": rulesExtra3, "X4": rulesExtra3, "B6": rulesExtra3, "G8": rulesExtra3,
-	"R3": rulesExtra4, "R4": rulesExtra4, "J2": rulesExtra4, "R5": rulesExtra4, "I10": rulesExtra4, "L4": rulesExtra4, "M6": rulesExtra4, "I8": rulesExtra4, "I9": rulesExtra4, "T6": rulesExtra4, "L3": rulesExtra4, "E6": rulesExtra4, "X5": rulesExtra4, "X6": rulesExtra4,
+	"X7": rulesExtra4, "L5": rulesExtra4, "R3": rulesExtra4, "R4": rulesExtra4, "J2": rulesExtra4, "R5": rulesExtra4, "I10": rulesExtra4, "L4": rulesExtra4, "M6": rulesExtra4, "I8": rulesExtra4, "I9": rulesExtra4, "T6": rulesExtra4, "L3": rulesExtra4, "E6": rulesExtra4, "X5": rulesExtra4, "X6": rulesExtra4,
 	"S1": rulesExtra2, "G7": rulesExtra2, "Q5": rulesExtra2, "T5": rulesExtra2, "I7": rulesExtra2,
 	"I6": rulesExtra, "T2": rulesExtra, "P4": rulesExtra, "B4": rulesExtra, "B5": rulesExtra, "T3": rulesExtra, "T4": rulesExtra,
 	"M1": rulesAddr, "M2": rulesAddr, "M3": rulesAddr, "D2": rulesAddr,
@@ -136,13 +136,13 @@ var propSpecs = map[string]*propSpec{
 	"C17": {ID: "C17", Rules: []ruleRef{{Rule: "P3"}, only("I4", "Append"), {Rule: "I10"}}, Controls: []string{"P3"},
 		Explanation: "The value persisted as local head is produced (Append) and written (Put) inside one exclusive critical section that is not released in between (P3). Every acknowledged write has refreshed the view (I4 on the write path).",
 		NotDecided:  "distinctness of appended entries (the dependency's append lock)."},
-	"C18": {ID: "C18", Rules: rr("G1", "G3", "G4", "G5", "G6", "G8", "G9", "B3", "B6"),
+	"C18": {ID: "C18", Rules: rr("G1", "G3", "G4", "G5", "G6", "G8", "G9", "B3", "B6", "L5"),
 		Explanation: "Every goroutine's loops have an owner-tied exit and helper goroutines never block on a channel whose receiver may have left (G1); Close reaches cancel, Replicator.Stop, cache close, every emitter it created and the legacy subscribers, every bus subscription is closed, instance Close reaches its parts (G3); no call made under a lock re-acquires the same lock class (G4); Close starts with the closed test, Drop closes first and removes only the path derived from the database's own address (G5); condition variables are signalled with their lock held (G6); shared table entries are not bound to one caller's context (B3). Past its guard Close passes cancel, Replicator.Stop, cache Close and the legacy teardown on every path (G8); close hooks are not chained through the caller's options (B6).",
 		NotDecided:  "prompt return of every post-close operation (depends on leveldb and the bus)."},
 	"C19": {ID: "C19", Rules: rr("R1", "R2", "R3", "R4", "R5"), Controls: []string{"R4"},
 		Explanation: "The status is written only by the recalculation helpers and reset only by Close (R1); the helpers are executed abstractly on every weak ordering of (arg, logLen, oldMax, progress, progress+1): neither value decreases and progress <= maximum is re-established (R2). Progress also ends at or above the log length on every order type.",
 		NotDecided:  "progress = maximum at rest; relation to Lamport times."},
-	"C20": {ID: "C20", Rules: []ruleRef{{Rule: "X1"}, {Rule: "X2"}, only("X3", "directchannel"), {Rule: "N2"}, only("N1", "directchannel"), except("G7", "replicator"), {Rule: "X4"}}, Controls: []string{"N2"},
+	"C20": {ID: "C20", Rules: []ruleRef{{Rule: "X1"}, {Rule: "X2"}, only("X3", "directchannel"), {Rule: "N2"}, only("N1", "directchannel"), except("G7", "replicator"), {Rule: "X4"}, {Rule: "X7"}, only("L5", "pubsub", "verifCtl")}, Controls: []string{"N2", "L5"},
 		Explanation: "All three subscription read loops deliver only on the sender ≠ self outcome (X1); the pairwise channel name is the join of the sorted pair {local, remote} (X2); frame writer/reader use matching varint codecs, the reader's bound check precedes allocation, the delivered buffer is the fully read one and is attributed to the stream's remote peer (X3, N1, N2). The membership snapshot is replaced on every successful diff (X4); frame slots are released on every path (G7).",
 		NotDecided:  "exactly-once of the polling membership diff; byte-for-byte delivery."},
 }
